@@ -31,8 +31,9 @@ REQUIRED_THEOREMS = [
 
 RULE = (
     'A case is one (class, polynomial) or (p, degree) input of the real code. Exhaustive: EVERY polynomial (monic and '
-    'non-monic, constants and 0 included) of degree <= 10 over GF(2) (binary class and the generic list code at p = 2), '
-    '<= 6 over GF(3), <= 4 over GF(5) and GF(7) (thorough: 12/7/5/5): is_irreducible through the class method with '
+    'non-monic, constants and 0 included) of degree <= 12 over GF(2) (binary class and the generic list code at p = 2), '
+    '<= 7 over GF(3), <= 5 over GF(5) and GF(7) in the thorough tier; quick tier: every polynomial of degree <= 8/5/3/3 '
+    'plus a seeded sample of 500/700/900/900 polynomials of the degrees up to 10/6/4/4: is_irreducible through the class method with '
     'polynomial/int/str/list argument and the static _method, next_irreducible likewise, GF(modulus) and xGF(modulus) '
     '(accepts with order p^d / modulus / characteristic / ext_deg, or ValueError); find_irreducible(p, d) for all '
     'small d. Random: p = 11 and 101, degrees 1..12, uniformly random / products of two random factors (known '
@@ -188,8 +189,12 @@ def _one(J, D, a, k, nvar, gf=True, nxt=True):
 
 def job_exhaustive(J, D, js):
     p = D.p
-    lo, hi = js['range']
-    for n in range(lo, hi):
+    if 'list' in js:
+        ns = js['list']
+    else:
+        lo, hi = js['range']
+        ns = range(lo, hi)
+    for n in ns:
         a = O.from_int(p, n)
         _one(J, D, a, n, js.get('nvar'))
         J.key(('poly', D.name, n))
@@ -269,17 +274,24 @@ def build_jobs(ctx, nodriver=False):
     def add(kind, dname, weight, **kw):
         jobs.append(dict(kind=kind, dom=dname, weight=weight, nodriver=nodriver, **kw))
 
-    doms = (('2b', 12 if T else 10), ('2l', 12 if T else 10), ('3', 7 if T else 6), ('5', 5 if T else 4), ('7', 5 if T else 4))
+    # thorough: EVERY polynomial up to the degree D; quick: every polynomial up to degree Dq and a seeded sample of
+    # `cnt` polynomials of the degrees Dq+1..D (the full sweep is left to the thorough tier: time budget)
+    doms = (('2b', 12, 10, 8, 500), ('2l', 12, 10, 8, 300), ('3', 7, 6, 5, 700), ('5', 5, 4, 3, 900), ('7', 5, 4, 3, 900))
     if not nodriver:
         jobs.append(dict(kind='selfcheck', dom=None, weight=6, rabin_deg=6,
-                         domains=[(2, 10), (3, 6), (5, 4), (7, 4)]))
-    for dname, D in doms:
+                         domains=[(2, 10), (3, 6), (5, 4), (7, 4)] if T else [(2, 8), (3, 5), (5, 3), (7, 3)]))
+    for dname, DT, D, Dq, cnt in doms:
         p = 2 if dname in ('2b', '2l') else int(dname)
-        n = p ** (D + 1)
+        n = p ** ((DT if T else Dq) + 1)
         for lo, hi in B._chunks(0, n, max(1, n // 2500)):
             add('exhaustive', dname, (hi - lo) * 1.2e-3, range=(lo, hi), nvar=1 if n > 4000 else 2 if n > 1000 else None)
         if n > 4000:   # all entry points on the low degrees
             add('exhaustive', dname, 1, range=(0, min(n, 600)), nvar=None)
+        if not T:
+            r = ctx.subrng('sample', dname)
+            ns = sorted(set(r.randrange(n, p ** (D + 1)) for _ in range(cnt)))
+            for lo, hi in B._chunks(0, len(ns), 2):
+                add('exhaustive', dname, (hi - lo) * 2e-3, list=ns[lo:hi], nvar=1)
     for dname, top in (('2b', 64 if T else 20), ('3', 16 if T else 10), ('5', 10 if T else 7), ('7', 8 if T else 6),
                        ('11', 7 if T else 5), ('13', 5), ('101', 4 if T else 3)):
         add('find', dname, 8 if dname == '2b' else 3, degrees=list(range(1, top + 1)))
